@@ -2,4 +2,4 @@
 # usage: process_mutant.sh <prop> <suffix>   - confirm the change left in /tmp/wt/<prop><suffix>, store it as seeded/<prop>-<suffix>, run the property's check against it
 p=$1; x=$2
 /verif/tools/confirm_mutant.sh /tmp/wt/$p$x /verif/seeded/$p-$x | tail -1
-/verif/tools/try_seeded.sh $p-$x $p | head -4 | cut -c1-230
+/verif/tools/try_scratch.sh $p-$x $p | head -4 | cut -c1-230
